@@ -198,7 +198,7 @@ func (r *Run) finish(out string, wall time.Duration) {
 	if out != "" {
 		res := map[string]any{
 			"property_id": r.Prop, "tier": r.Tier, "seed": r.Seed,
-			"evaluations": r.Evaluations, "distinct_nontrivial": len(r.distinct), "rule": r.Rule,
+			"evaluations": r.Evaluations, "distinct_nontrivial": len(r.distinct), "rule": r.Rule + "; in addition: enumerated families and relations on the real engine alone (added while seeded changes were studied, DESIGN.md §11.8) — each is counted under a key of its own in `distribution` (key = family, value = cases run)",
 			"samples": r.Samples, "distribution": r.Dist, "exhaustive": r.Exhaustive, "notes": r.Notes,
 			"violations": r.Violations, "known_hits": r.KnownHits, "tie_breaks": len(r.TieBreaks),
 			"internal_errors": r.InternalErrs, "wall_s": wall.Seconds(),
